@@ -19,20 +19,6 @@ Proof. destruct a, b; simpl; intro H; inversion H; reflexivity. Qed.
 
 (* ---------------------------------------------------------------------------------------------- *)
 (* what a call on the ADwin interface reads / writes, register by register                        *)
-Definition writes_of_call (c : call) : list (reg * value) :=
-  match c with
-  | CSetPar i v => [(RPar i, v)]
-  | CSetFPar i v => [(RFPar i, v)]
-  | CSetData d s vs => combine (map (RData d) (nrange s (length vs))) vs
-  | _ => []
-  end.
-Definition reads_of_call (c : call) : list reg :=
-  match c with
-  | CGetPar i => [RPar i]
-  | CGetFPar i => [RFPar i]
-  | CGetData d s n => map (RData d) (nrange s (N.to_nat n))
-  | _ => []
-  end.
 Definition apply_writes (ws : list (reg * value)) (rf : regfile) : regfile :=
   fold_left (fun rf w => upd (fst w) (snd w) rf) ws rf.
 
